@@ -253,9 +253,9 @@ def check(ctx):
                            "nodes)", ok_n, detail=short(sn or ()))
 
     # ---- shared mechanisms: the neighbour's rules run as obligations of this property
-    ctx.include("C01", "C17.R3", only=['C01.R6'])
+    ctx.include("C01", "C17.R3", only=['C01.R6', 'C01.R4'])
     ctx.include("C14", "C17.R3", only=['C14.R1'])
-    ctx.rule("R3", "shared mechanisms, run as obligations of this property: the refresh before each draw is a targeted update that really runs (C01.R6); a transformed variable is the bijector image of the new variable, so it is simulated through it (C14.R1).")
+    ctx.rule("R3", "shared mechanisms, run as obligations of this property: the refresh before each draw is a targeted update that really runs (C01.R6); the value setter each draw is assigned through flags every dependant and, with auto-update on, runs the full sweep in topological order (C01.R4); a transformed variable is the bijector image of the new variable, so it is simulated through it (C14.R1).")
 
 
 def _covers_inputs(call: ast.Call, tvars=None) -> bool:
